@@ -32,7 +32,8 @@ RECURSIVE ElemsOkFrom(_, _)
 ElemOk(e) == ~(e = <<>> \/ e = <<Dot>> \/ e = <<Dot, Dot>>)
 ElemsOkAt(p, i, j) == IF j = 0 THEN ElemOk(From(p, i)) ELSE ElemOk(Sub(p, i, j - 1)) /\ ElemsOkFrom(p, j + 1)
 ElemsOkFrom(p, i) == ElemsOkAt(p, i, IndexByteFrom(p, Slash, i))
-ValidPath(p) == Valid(p) /\ (p = Root \/ ElemsOkFrom(p, 1))
+IsUtf8(p) == (\A k \in DOMAIN p : p[k] < 128) \/ Valid(p)       \* (ASCII shortcut, then Utf8!Valid = utf8.ValidString)
+ValidPath(p) == (p = Root \/ ElemsOkFrom(p, 1)) /\ IsUtf8(p)
 
 NameSet(F) == {F[i].n : i \in DOMAIN F}
 \* the property's precondition: valid names, no duplicates, no name that is also a directory of another
